@@ -284,7 +284,7 @@ Proof.
     rewrite Qfloor_Z. unfold clipZ. lia.
 Qed.
 
-(** where the unchanged code is right: whenever the truncated raw value fits into int32 *)
+(** where the pre-fix code (cast to int32, then clip) is right: whenever the truncated raw value fits into int32 *)
 Lemma grid_idx1_int32_first_agrees (m : Q) :
   (int32_min <= Qtrunc (grid_raw d lo hi eps m) <= int32_max)%Z ->
   grid_idx1_int32_first d lo hi eps m = grid_idx1 d lo hi eps m.
@@ -302,9 +302,23 @@ Proof.
   assert (E : (Qtrunc (grid_raw d lo hi eps m) <=? int32_max)%Z = false) by (apply Z.leb_gt; lia).
   rewrite E, andb_false_r. unfold clipZ, int32_min. lia.
 Qed.
+(** the repaired code (clip in floating point, then cast; fixes/F1.patch), stated directly: in range, monotone and
+    sending every coordinate at or above the upper bound -- of every magnitude -- to the last cell *)
+Lemma grid_idx1_clip_first_range (m : Q) : (0 <= grid_idx1_clip_first d lo hi eps m < d)%Z.
+Proof. rewrite grid_idx1_clip_first_eq. apply grid_idx1_range. Qed.
+
+Lemma grid_idx1_clip_first_mono (m1 m2 : Q) : m1 <= m2 ->
+  (grid_idx1_clip_first d lo hi eps m1 <= grid_idx1_clip_first d lo hi eps m2)%Z.
+Proof. intro H. rewrite !grid_idx1_clip_first_eq. apply grid_idx1_mono. exact H. Qed.
+
+Lemma grid_idx1_clip_first_edge_high (m : Q) : hi <= m -> grid_idx1_clip_first d lo hi eps m = (d - 1)%Z.
+Proof. intro H. rewrite grid_idx1_clip_first_eq. apply grid_idx1_edge_high. exact H. Qed.
+
+Lemma grid_idx1_clip_first_edge_low (m : Q) : m <= lo -> eps < hi - lo -> grid_idx1_clip_first d lo hi eps m = 0%Z.
+Proof. intros H1 H2. rewrite grid_idx1_clip_first_eq. apply grid_idx1_edge_low; assumption. Qed.
 End OneDim.
 
-(** the unchanged code violates edge-high (and monotonicity): dims=[10], ranges=[(0,1)], 1e9 -> cell 0 *)
+(** the pre-fix code (cast to int32, then clip) violates edge-high (and monotonicity): dims=[10], ranges=[(0,1)], 1e9 -> cell 0 *)
 Lemma int32_first_edge_high_witness :
   grid_idx1_int32_first 10 0 1 (1 # 1000000) 1000000000 = 0%Z /\
   grid_idx1 10 0 1 (1 # 1000000) 1000000000 = 9%Z /\
@@ -377,3 +391,11 @@ Qed.
 
 Lemma grid_index_of_length (eps : Q) (cfg : list gdim) (ms : list (list Q)) : length (grid_index_of eps cfg ms) = length ms.
 Proof. apply map_length. Qed.
+
+(** all dimensions: the repaired per-dimension code computes the same grid cells as the intended one *)
+Lemma grid_cells_clip_first_eq (eps : Q) (cfg : list gdim) : valid_cfg cfg -> forall m,
+  grid_cells grid_idx1_clip_first eps cfg m = grid_cells grid_idx1 eps cfg m.
+Proof.
+  unfold valid_cfg. induction 1 as [|c ct Hc Hct IH]; intros [|x mt]; simpl; try reflexivity.
+  destruct Hc as [Hd _]. rewrite (grid_idx1_clip_first_eq _ _ _ _ Hd), IH. reflexivity.
+Qed.
